@@ -240,15 +240,16 @@ def check_wrap_whole(template, text):
     if not (out.startswith(pre) and out.endswith(suf) and len(out) >= len(pre) + len(suf)):
         return '%r with text %r -> %r, expected %r + %r + text + %r' % (abbr, text, out, pre, own, suf)
     mid = out[len(pre):len(out) - len(suf)]
-    if '$#' in abbr and norm_lines(mid).startswith('$#'):
-        mid = mid.replace('$#', '', 1)     # `$#` without implicit repeater may stay as written (statement silent)
     want = own + whole.strip()
-    if norm_lines(mid) != norm_lines(want):
-        return '%r with text %r -> %r: content of the deepest last element is %r, expected %r ' \
-               '(compared modulo white space at line ends)' % (abbr, text, out, mid, want)
-    if not RE_NL.search(whole.strip()) and mid.strip() != want.strip():
-        return '%r with text %r -> %r: content %r is not %r' % (abbr, text, out, mid, want)
-    return None
+    mids = [mid]
+    if '$#' in abbr and '$#' in mid:
+        mids.append(mid.replace('$#', '', 1))      # `$#` without implicit repeater may stay as written (statement silent)
+    single = not RE_NL.search(whole.strip())
+    for m in mids:
+        if norm_lines(m) == norm_lines(want) and (not single or m.strip() == want.strip()):
+            return None
+    return '%r with text %r -> %r: content of the deepest last element is %r, expected %r%s' % (
+        abbr, text, out, mid, want, '' if single else ' (compared modulo white space at line ends)')
 
 
 # ---------------------------------------------------------------------------------------------
